@@ -420,17 +420,32 @@ func c18ValidTree(rt *rapid.T) (tree.Tree, map[string]string) {
 		"t/page.tw":         "@use(\"~main\")@insert(\"title\", \"T\")@insert(\"body\")" + fill() + "@component(\"comp\", {v: 1})\n@slot(\"s\")x@end\n@end;" + fill() + "@end",
 		"t/other.tw":        fill() + "other page",
 	}
+	role := map[string]string{"t/layouts/main.tw": "layout", "t/comp.tw": "component", "t/page.tw": "page", "t/other.tw": "page"}
+	// further component uses at nesting positions that run: branches of @if, bodies and @else blocks of loops
+	positions := []string{"@if(true)%s@end", "@if(false)a@else%s@end", "@each(i in [1])%s@end", "@each(i in [])n@else%s@end", "@for(i = 0; i < 1; i++)%s@end",
+		"@for(i = 0; i < 0; i++)n@else%s@end", "@if(false)a@elseif(true)%s@end", "@each(i in [1])@if(i == 1)@each(j in [])n@else%s@end@end@end"}
+	uses := ""
+	for _, i := range rapid.SliceOfNDistinct(rapid.IntRange(0, len(positions)-1), 3, 3, rapid.ID[int]).Draw(rt, "usePositions") {
+		name := fmt.Sprintf("p%d", i)
+		uses += fmt.Sprintf(positions[i], "@component(\""+name+"\");")
+		files["t/"+name+".tw"] = "<" + name + ">"
+		role["t/"+name+".tw"] = "component"
+	}
+	if rapid.Bool().Draw(rt, "usesInInsert") {
+		files["t/page.tw"] = strings.TrimSuffix(files["t/page.tw"], "@end") + uses + "@end"
+	} else {
+		files["t/other.tw"] += uses
+	}
 	tr := tree.Tree{}
 	for p, s := range files {
 		tr[p] = tree.Entry{Content: s}
 	}
-	role := map[string]string{"t/layouts/main.tw": "layout", "t/comp.tw": "component", "t/page.tw": "page", "t/other.tw": "page"}
 	return tr, role
 }
 
 func TestC18_FaultEnumeration(t *testing.T) {
 	c := harness.New(t, "C18", "fault-enumeration",
-		"for generated valid directories (page + layout + component + independent page): every file x {deleted, truncated at every byte prefix, replaced by garbage (lexeme soup), dangling symbolic link, directory in its place}. NewTemplate must return without panic or hang either (nil, error) or (template, nil). It must fail with an error naming the damaged file's path when that file is syntactically wrong by itself (decided by parsing it alone) or unreadable, and naming the layout/component (by name or path) when such a file is absent. Non-trivial: the fault is in a layout or component. Every (file, operator, prefix) of each generated tree is enumerated.")
+		"for generated valid directories (page + layout + component + independent page + three more components used in a branch of an @if / @elseif / @else, in the body or the @else of an @each / @for, or in the @else of a loop nested in a loop pass): every file x {deleted, truncated at every byte prefix, replaced by garbage (lexeme soup), dangling symbolic link, directory in its place}. NewTemplate must return without panic or hang either (nil, error) or (template, nil). It must fail with an error naming the damaged file's path when that file is syntactically wrong by itself (decided by parsing it alone) or unreadable, and naming the layout/component (by name or path) when such a file is absent. Non-trivial: the fault is in a layout or component. Every (file, operator, prefix) of each generated tree is enumerated.")
 	defer c.Finish()
 	alpha := c08Alphabet()
 	runRapid(t, c, 12, 180, func(rt *rapid.T) {
@@ -454,7 +469,7 @@ func TestC18_FaultEnumeration(t *testing.T) {
 			case "layout":
 				return []string{"layouts/main", "main"}
 			case "component":
-				return []string{"comp"}
+				return []string{strings.TrimSuffix(path.Base(p), ".tw")}
 			}
 			return nil
 		}
@@ -473,7 +488,8 @@ func TestC18_FaultEnumeration(t *testing.T) {
 			// dangling symbolic link: unreadable
 			tr := base.Clone()
 			tr[p] = tree.Entry{Kind: tree.Symlink, Content: "nowhere/" + path.Base(p)}
-			run(faultCase{Tree: tr, Faulty: p, Op: "dangling-symlink", MustFail: true, Mention: []string{p, path.Base(p)}})
+			// (reported as unreadable, or - when a file that uses it is looked at first - as an absent layout / component)
+			run(faultCase{Tree: tr, Faulty: p, Op: "dangling-symlink", MustFail: true, Mention: append([]string{p, path.Base(p)}, absent(p)...)})
 			// truncated at every byte prefix
 			for cut := 0; cut < len(content); cut++ {
 				tr := base.Clone()
